@@ -500,6 +500,10 @@ def check(prop, tier, seed, only_legs=None):
     if harness_errors:
         for e in harness_errors[:5]:
             print("HARNESS-ERROR: %s" % e[:3000])
+        if n_viol:
+            # a violation that did replay in a fresh interpreter stands, whatever else went wrong
+            # in this run (the harness errors are still printed and recorded in the evidence)
+            return 1
         return 2
     return 1 if n_viol else 0
 
